@@ -75,6 +75,26 @@ def gen(tier, rng):
                                 obs.append(kern.Ob("%s/int-int/r%d/%s@%d->%s@%d/%s" % (cfg, radix, S.short, es, D.short, ed, form), D.name, [(S.name, "a")], cnl, [ref], alts=alts, cfg=cfg,
                                                    may_reject=(d >= 0 and mag > PS.max and S.signed),
                                                    meta=dict(anchor="include/cnl/_impl/scaled/convert_operator.h (integer -> integer); num_traits/scale.h", d=d)))
+            if radix == 2:
+                # different radices (10 <-> 2, 3 -> 10): exact value re-expressed at the destination's resolution, truncated
+                # toward zero, i.e. every multiplication before any division (seeded changes M-C04-3 / M-C04-4 divide first
+                # when both exponents are positive); operands restricted so that the scaled numerator fits the destination rep
+                for (S, D) in ([(I32, I64), (I64, I64), (I16, I32), (U32, I64)] if tier == "quick" else [(I32, I64), (I64, I64), (I16, I32), (U32, I64), (I8, I32), (U16, U64), (I32, I32)]):
+                    for (rs, rd) in ((10, 2), (2, 10), (3, 10)):
+                        for (es, ed) in ((2, 3), (3, 1), (1, 1), (-2, -3), (-1, -4), (2, -3), (-2, 3), (0, 2), (2, 0), (0, -2), (-2, 0)):
+                            N = rs ** max(es, 0) * rd ** max(-ed, 0)
+                            Dn = rs ** max(-es, 0) * rd ** max(ed, 0)
+                            # the library scales in the (promoted) source rep before widening (known finding D11): the claim
+                            # here is the ORDER of the scalings, so operands are kept where that product fits the source rep
+                            lim = min(D.max // N, S.max // N)
+                            if lim < 8:
+                                continue
+                            TS, TD = sname(S.name, es, rs), sname(D.name, ed, rd)
+                            pre = ["a <= %s" % S.lit(lim)] + (["a >= %s" % S.lit(-lim)] if S.signed else [])
+                            refs = ["return (%s)(((%s)a * %s) / %s);" % (D.name, D.name, D.lit(N), D.lit(Dn))]
+                            obs.append(kern.Ob("%s/int-int/cross-radix/%s@%d^%d->%s@%d^%d" % (cfg, S.short, es, rs, D.short, ed, rd), D.name, [(S.name, "a")],
+                                               "return unwrap(static_cast<%s>(wrap<%s>(a)));" % (TD, TS), refs, pre=pre, cfg=cfg, may_reject=True,
+                                               meta=dict(anchor="include/cnl/_impl/scaled/convert_operator.h (integer -> integer, different radixes)", d=0)))
             # built-in integer <-> scaled_integer
             for S in reps:
                 PS = promote(S)
